@@ -335,17 +335,22 @@ def execN (R : Routes) (fixed : Bool) (st : Shards S.Val) (c : Cmd S) : Shards S
   | .msetnx kvs => routePrimary E R fixed st (.msetnx kvs)
   | .randomkey => randomkeyFrom E st (List.range R.N)
 
-/-- single-key requests: what one client message to one shard actor carries (C02) -/
+/-- single-key requests: what one client message to one shard actor carries (C02), including ONE
+    ITEM of a batched call (`fast_batch_get_pipeline` / `fast_batch_set_pipeline`) -/
 def SingleKey : Cmd S → Bool
   | .single _ _ => true
   | .fastGet _ => true
   | .fastSet _ _ => true
+  | .batchGet [_] => true
+  | .batchSet [_] => true
   | _ => false
 
 def cmdKey : Cmd S → Key
   | .single k _ => k
   | .fastGet k => k
   | .fastSet k _ => k
+  | .batchGet [k] => k
+  | .batchSet [kv] => kv.1
   | _ => 0
 
 /-- the shard whose mailbox a single-key request is pushed into -/
@@ -353,6 +358,8 @@ def cmdShard (R : Routes) (fixed : Bool) : Cmd S → Nat
   | .single k _ => R.gen fixed k
   | .fastGet k => R.bytes k
   | .fastSet k _ => R.bytes k
+  | .batchGet [k] => R.bytes k
+  | .batchSet [kv] => R.bytes kv.1
   | _ => 0
 
 /-- the keyspace a client can observe: the union of the shards (first shard wins on a key that
